@@ -580,7 +580,7 @@ func record(sec *vk.Section, c procCase, out outcome) {
 
 func TestProcessorHistories(t *testing.T) {
 	sec := vk.Sec("ProcessorHistories")
-	vk.Check(t, 60000, 1500000, func(rt *rapid.T) {
+	vk.Check(t, 60000, 16000000, func(rt *rapid.T) {
 		c := genCase(rt)
 		out, err := runProc(t, c)
 		if err != nil {
